@@ -1,4 +1,5 @@
 import S2S.Model.Routing
+import S2S.Spec.RoutingFaults
 import Driver.Util
 /-
 Driver for engine "routing" (C01–C04).  Big-step ops: one harness op = one environment action
@@ -16,6 +17,7 @@ structure DSt where
   seenEmit : List Nat := []        -- per target: emitted messages already reported
   seenAck  : List Nat := []        -- per source: acks already reported
   hint     : List (TId × List (SId × Bool)) := []
+  γ        : Ghost := {}           -- ghost bookkeeping of Spec/RoutingFaults (incarnation bases, announced watermarks, lost tasks)
   noRetry  : Bool := false         -- no virtual time passes in this op: sleeping retry loops do not wake up   -- per target: sources of the enqueues still to happen, in the implementation's observed order
 
 /-- candidate eager actions in a fixed priority order -/
@@ -142,9 +144,19 @@ def parseHint : List String → List (TId × List (SId × Bool))
 def applyEnv (d : DSt) (acts : List Act) (hintWords : List String) : DSt × String :=
   -- the observed per-target source order covers what is already in the pipeline plus the new enqueues
   let hint := (parseHint hintWords).map fun (t, l) => (t, l.drop (pipeline (d.σ.tgt t)).length)
-  let σ := acts.foldl (fun σ a => (S2S.Routing.step d.cfg σ a).getD σ) d.σ
-  let (d', o) := observe (settle fuel { d with σ := σ, hint := hint })
-  ({ d' with noRetry := false }, o)
+  -- the environment hypothesis of the theorems (`EnvOKF`: `RecvOK` + `RecvFresh`) is CHECKED on every batch the harness
+  -- sends: a harness that violates it gets an observation the real code never produces, i.e. a reported disagreement
+  let (σ, γ, envOK) := acts.foldl (fun (acc : State × Ghost × Bool) a =>
+    let (σ, γ, ok) := acc
+    match S2S.Routing.step d.cfg σ a with
+    | none => (σ, γ, ok)
+    | some σ' =>
+      let ok' := match a with
+        | .recv s tasks high => ok && decide (RecvOK σ.targets.length (σ.src s) tasks high) && decide (RecvFresh σ γ s tasks)
+        | _ => ok
+      (σ', γ.next d.cfg σ a, ok')) (d.σ, d.γ, true)
+  let (d', o) := observe (settle fuel { d with σ := σ, γ := γ, hint := hint })
+  ({ d' with noRetry := false }, if envOK then o else "ENV-HYPOTHESIS-VIOLATED-BY-HARNESS " ++ o)
 
 def parseTasks : List String → Option (List (Int × TId))
   | [] => some []
